@@ -110,11 +110,43 @@ fn main() {{
     TL_A.with(|c| c.set(78));
     let g = unsafe {{ std::ptr::read_volatile(&raw const G_MUT) }} + G_U32 as i64;
     let r = stop_here(g as u64);
+    println!("DBG s_ascii={{:?}}", s_ascii);
+    println!("DBG s_utf8={{:?}}", s_utf8);
+    println!("DBG s_empty={{:?}}", s_empty);
+    println!("DBG v_i32={{:?}}", v_i32);
+    println!("DBG v_empty={{:?}}", v_empty);
+    println!("DBG v_cap={{:?}}", v_cap);
+    println!("DBG vv={{:?}}", vv);
+    println!("DBG v_str={{:?}}", v_str);
+    println!("DBG vd={{:?}}", vd);
+    println!("DBG vd_del={{:?}}", vd_del);
+    println!("DBG hm={{:?}}", hm);
+    println!("DBG hm_del={{:?}}", hm_del);
+    println!("DBG hs_del={{:?}}", hs_del);
+    println!("DBG hm_key={{:?}}", hm_key);
+    println!("DBG hs={{:?}}", hs);
+    println!("DBG bm={{:?}}", bm);
+    println!("DBG bm_del={{:?}}", bm_del);
+    println!("DBG bs={{:?}}", bs);
+    println!("DBG bx={{:?}}", bx);
+    println!("DBG rc={{:?}}", rc);
+    println!("DBG arc={{:?}}", arc);
+    println!("DBG cell={{:?}}", cell);
+    println!("DBG rcell={{:?}}", rcell);
+    println!("DBG opt_s={{:?}}", opt_s);
+    println!("DBG opt_none={{:?}}", opt_none);
+    println!("DBG arr={{:?}}", arr);
+    println!("DBG sl={{:?}}", sl);
+    println!("DBG tup={{:?}}", tup);
+    println!("DBG n={{:?}}", n);
+    println!("DBG g={{:?}}", g);
     println!("{{r}} {{}} {{}} {{}} {{}} {{}} {{}} {{}} {{}} {{}} {{}} {{}} {{}} {{}} {{}} {{}} {{}} {{}} {{}} {{:?}} {{:?}} {{:?}} {{:?}} {{:?}} {{}}", s_ascii, s_utf8, s_empty.len(), v_i32.len(), v_empty.len(), v_cap.len(), vv.len(), v_str.len(), vd.len(), hm.len(), hs.len(), bm.len(), bs.len(), bx.0, rc2, arc, cell.get(), hm_key.len() + hm_del.len() + hs_del.len() + bm_del.len() + vd_del.len(), rcell, opt_s, opt_none, sl, tup, n);
 }}
 "#
     )
 }
+
+pub const VARD_NAMES: [&str; 30] = ["s_ascii", "s_utf8", "s_empty", "v_i32", "v_empty", "v_cap", "vv", "v_str", "vd", "vd_del", "hm", "hm_del", "hs_del", "hm_key", "hs", "bm", "bm_del", "bs", "bx", "rc", "arc", "cell", "rcell", "opt_s", "opt_none", "arr", "sl", "tup", "n", "g"];
 
 /// Build (if needed) the program for one size parameter: (exe, source file name, line of the stop).
 pub fn ensure_built(n: u64, wrap: u64) -> Result<(String, String, u64), String> {
@@ -290,6 +322,7 @@ pub fn part_std(tier: Tier, expressions: bool) -> Part {
             json!({"op": "start"}),
             json!({"op": "values", "names": [], "derefs": []}),
             json!({"op": "dqe", "exprs": exprs}),
+            json!({"op": "vard", "exprs": VARD_NAMES}),
             json!({"op": "continue"}),
         ];
         let run = session(&exe.display().to_string(), |obs| cmds.get(obs.len()).cloned(), Duration::from_secs(60), cmds.len());
@@ -342,8 +375,8 @@ pub fn part_std(tier: Tier, expressions: bool) -> Part {
             }
         }
         // the program still prints what it holds
-        if !expressions && !run.obs.get(4).map(|o| o["res"]["kind"] == "exit").unwrap_or(false) {
-            part.violate("C06:std:program-did-not-finish", format!("[n={n}] {:?}", run.obs.get(4).map(|o| o["res"].clone())), replay.clone());
+        if !expressions && !run.obs.get(5).map(|o| o["res"]["kind"] == "exit").unwrap_or(false) {
+            part.violate("C06:std:program-did-not-finish", format!("[n={n}] {:?}", run.obs.get(5).map(|o| o["res"].clone())), replay.clone());
         }
     }
     part.bounds = json!({"size_parameters": configs, "locals": expected(3).len(), "expressions": expected_dqe(3).len(), "toolchain": "1.89"});
@@ -353,4 +386,67 @@ pub fn part_std(tier: Tier, expressions: bool) -> Part {
 fn short(v: &Value) -> String {
     let s = v.to_string();
     if s.len() > 300 { format!("{}…({} chars)", &s[..300], s.len()) } else { s }
+}
+
+/// C16, `vard`: the debugger calls the program's own Debug implementation; the text must be what
+/// the program itself prints for the same value with `{:?}` a moment later.
+pub fn part_vard(tier: Tier) -> Part {
+    let mut part = Part::new("c16_vard");
+    part.rule = "std-linked generated program that prints every one of its 30 values with {:?} after the stop: at the stop `vard <name>` (call_debug_fmt, the program's own Debug code run inside the stopped thread) is evaluated for each; every text returned must equal the line the program prints itself afterwards, the registers are unchanged by the calls, and the program finishes with its normal output. An error answer (no callable instantiation found) is accepted, a different text is not".into();
+    let configs: &[(u64, u64)] = if tier == Tier::Quick { &[(3, 5)] } else { &[(1, 0), (3, 5), (12, 7), (40, 13)] };
+    for &(n, wrap) in configs {
+        let (exe, file, line) = match ensure_built(n, wrap) {
+            Ok(x) => x,
+            Err(e) => {
+                part.violate("MACHINERY:std-build", e, json!(null));
+                continue;
+            }
+        };
+        let cmds = vec![json!({"op": "break_line", "file": file, "line": line}), json!({"op": "start"}), json!({"op": "vard", "exprs": VARD_NAMES}), json!({"op": "continue"})];
+        let run = session(&exe, |obs| cmds.get(obs.len()).cloned(), Duration::from_secs(120), cmds.len());
+        let replay = json!({"engine": "mt", "exe": exe, "commands": cmds});
+        part.states += run.obs.len() as u64;
+        part.traces_validated += 1;
+        if run.hang_at.is_some() || run.crashed.is_some() || run.obs.len() < 4 {
+            part.violate("C16:vard:session-broke", format!("[n={n}] hang {:?} crash {:?}", run.hang_at, run.crashed), replay);
+            continue;
+        }
+        let stdout = run.result.as_ref().and_then(|r| r["stdout"].as_str()).unwrap_or("").to_string();
+        let native = std::process::Command::new(&exe).output().map(|o| String::from_utf8_lossy(&o.stdout).to_string()).unwrap_or_default();
+        let own: std::collections::BTreeMap<String, String> = stdout.lines().filter_map(|l| l.strip_prefix("DBG ")).filter_map(|l| l.split_once('=')).map(|(k, v)| (k.to_string(), v.to_string())).collect();
+        let v = &run.obs[2]["res"];
+        if v["registers_unchanged"] != true {
+            part.violate("C16:vard:registers-changed", format!("[n={n}] the registers of the stopped thread differ after the vard calls"), replay.clone());
+        }
+        let (mut ok, mut errs) = (0, 0);
+        for name in VARD_NAMES {
+            part.evaluations += 1;
+            let r = &v["results"][name];
+            if let Some(text) = r["ok"].as_str() {
+                ok += 1;
+                part.distinct_nontrivial += 1;
+                match own.get(name) {
+                    Some(w) if w == text => {}
+                    Some(w) => part.violate("C16:vard:text-differs-from-the-program's-own-debug-output", format!("[n={n}] vard {name} = {:?}, the program prints {:?}", short_s(text), short_s(w)), replay.clone()),
+                    None => part.violate("MACHINERY:vard-no-own-line", format!("[n={n}] no DBG line for {name} in {:?}", short_s(&stdout)), replay.clone()),
+                }
+            } else if r["panic"] == true {
+                part.violate("C16:vard:panic", format!("[n={n}] vard {name} panicked"), replay.clone());
+            } else {
+                errs += 1;
+            }
+        }
+        // the maps print in hash order, which is per process: compare the rest of the output only
+        let strip = |s: &str| s.lines().filter(|l| !l.starts_with("DBG h")).collect::<Vec<_>>().join("\n");
+        if !run.obs[3]["res"]["kind"].as_str().map(|k| k == "exit").unwrap_or(false) || strip(&stdout) != strip(&native) {
+            part.violate("C16:vard:program-output-changed", format!("[n={n}] after the vard calls the program ends with {} and prints {:?}; natively {:?}", run.obs[3]["res"], short_s(&strip(&stdout)), short_s(&strip(&native))), replay.clone());
+        }
+        part.sample(json!({"n": n, "vard_answers": ok, "vard_errors": errs, "example": {"vv": v["results"]["vv"], "opt_s": v["results"]["opt_s"]}}));
+    }
+    part.bounds = json!({"size_parameters": configs, "values": VARD_NAMES.len()});
+    part
+}
+
+fn short_s(s: &str) -> String {
+    if s.len() > 200 { format!("{}…", &s[..s.char_indices().take_while(|(i, _)| *i < 200).last().map(|(i, c)| i + c.len_utf8()).unwrap_or(0)]) } else { s.to_string() }
 }
